@@ -1320,6 +1320,10 @@ def rerun(prop, inp):
         import standins
         d = standins.rerun_C20(inp)
         return {'fails': d is not None, 'detail': d}
+    if isinstance(inp, dict) and inp.get('what') == 'most_general':
+        import standins
+        d = standins.most_general_case([({int(k): v for k, v in b.items()}, val) for b, val in inp['specs']])
+        return {'fails': d is not None, 'detail': d}
     d = run_case(inp)
     return {'fails': d is not None, 'detail': d}
 
